@@ -133,7 +133,7 @@ where
         tier.pick(6_000, 150_000)
     }
     fn rule(&self) -> String {
-        "two polynomials of 1..130 coefficients (zero leading/trailing runs, zero polynomial, sparse forced with probability 4/8), scalar, point; add/sub/mul/mul_by_scalar/eval/eval_many/degree_of/remove_leading_zeros/div vs schoolbook; non-trivial = both polynomials non-zero and at least one has a zero leading or trailing coefficient or degree >= 8".into()
+        "two polynomials of 1..130 coefficients (zero leading/trailing runs, zero polynomial, sparse forced with probability 4/8), scalar, point; add/sub/mul/mul_by_scalar/eval/eval_many/degree_of/remove_leading_zeros/div vs schoolbook; every 16th case also evaluates a polynomial of 255..4097 coefficients (2^k-1, 2^k, 2^k+1 and odd lengths above 2048); non-trivial = both polynomials non-zero and at least one has a zero leading or trailing coefficient or degree >= 8".into()
     }
     fn required_labels(&self, _t: Tier) -> Vec<String> {
         vec!["div:exact-check".into(), "div:doc-panic".into(), "a:leading-zero".into(), "a:zero-poly".into()]
@@ -183,6 +183,19 @@ where
         let many = polynom::eval_many(&a, &pts);
         for (i, p) in pts.iter().enumerate() {
             ensure!(to_el(&many[i]) == rp::eval(&f, &ma, &to_el(p)), "eval_many/value", "eval_many[{i}]");
+        }
+        // long polynomials (every 16th case): a repeated up to a length around the sizes at which an
+        // implementation may switch strategy; eval / eval_many / degree_of vs Horner over integers
+        if (a.len() + b.len()) % 16 == 0 && !a.is_empty() {
+            const LENS: [usize; 14] = [255, 256, 257, 1023, 1024, 1025, 2047, 2048, 2049, 2050, 3001, 4095, 4096, 4097];
+            let len = LENS[(a.len() * 7 + b.len()) % LENS.len()];
+            obs.label(if len % 2 == 1 && len > 2048 { "long-poly:odd>2048" } else { "long-poly" });
+            let long: Vec<E> = (0..len).map(|i| a[i % a.len()] + E::from((i / a.len()) as u32)).collect();
+            let mlong: Vec<El> = (0..len).map(|i| f.add(&ma[i % ma.len()], &f.from_base((i / ma.len()) as u128))).collect();
+            ensure!(to_el(&polynom::eval(&long, x)) == rp::eval(&f, &mlong, &mx), "eval/long", "eval of a polynomial with {len} coefficients differs from Horner over integers");
+            let many = polynom::eval_many(&long, &[x, k]);
+            ensure!(to_el(&many[0]) == rp::eval(&f, &mlong, &mx) && to_el(&many[1]) == rp::eval(&f, &mlong, &mk), "eval_many/long", "eval_many of a polynomial with {len} coefficients");
+            ensure!(polynom::degree_of(&long) == rp::degree(&f, &mlong), "degree_of/long", "degree_of of a polynomial with {len} coefficients");
         }
         ensure!(polynom::degree_of(&a) == rp::degree(&f, &ma), "degree_of", "degree_of = {}, true degree {}", polynom::degree_of(&a), rp::degree(&f, &ma));
         let t = polynom::remove_leading_zeros(&a);
